@@ -183,6 +183,23 @@ def _pattern_safe(I, t, tree) -> tuple[bool, str]:
     return False, "<unescaped " + fmt(t, I)[:60] + ">"
 
 
+def expand_guards(guards):
+    """Close a guard set under what its members imply: a true conjunction makes every conjunct true, a false disjunction
+    makes every disjunct false."""
+    out = set()
+    todo = list(guards)
+    while todo:
+        g, pol = todo.pop()
+        g, pol = nf.norm_guard(g, pol)
+        if (g, pol) in out:
+            continue
+        out.add((g, pol))
+        if isinstance(g, tuple) and g and g[0] == "bool" and ((g[1] == "and" and pol) or (g[1] == "or" and not pol)):
+            for x in g[2]:
+                todo.append((x, pol))
+    return out
+
+
 def branch_guards(guards, c, pol):
     """Guards inside the ``pol`` branch of cond(c, ...): guards that are themselves cond(c, a, b) are resolved;
     returns None when the branch is infeasible under the guards."""
@@ -201,7 +218,7 @@ def branch_guards(guards, c, pol):
             return None
         out.add((g, gp))
     out.add((cn, cp))
-    return out
+    return expand_guards(out)
 
 
 RE_FUNCS = {"re.sub", "re.search", "re.match", "re.split", "re.finditer", "re.findall", "re.fullmatch", "re.compile", "re.subn"}
@@ -307,6 +324,13 @@ def rule_partial(rep: Report, rid="C01.partial") -> None:
                 if g2 is not None:
                     walk_term(br_, g2, line)
             return
+        if t[0] == "bool":
+            # later operands are evaluated only when the earlier ones did not decide
+            gs = set(guards)
+            for x in t[2]:
+                walk_term(x, gs, line)
+                gs = expand_guards(gs | {nf.norm_guard(x, t[1] == "and")})
+            return
         if t[0] == "item" and is_const(t[2]) and t[2][1] in optional:
             nreads += 1
             need = (("cmp", "In", t[2], t[1]), True)
@@ -350,7 +374,7 @@ def rule_partial(rep: Report, rid="C01.partial") -> None:
         return []
 
     for n, ctx in nf.iter_nodes(c.tree):
-        guards = set(nf.guards_in_ctx(ctx))
+        guards = expand_guards(nf.guards_in_ctx(ctx))
         line = c.line_of(n)
         for t in node_terms(n):
             walk_term(t, guards, line)
@@ -434,7 +458,7 @@ def rule_partial(rep: Report, rid="C01.partial") -> None:
                     walk(x, guards, line)
 
         for n, ctx in nf.iter_nodes(tree):
-            guards = set(nf.guards_in_ctx(ctx))
+            guards = expand_guards(nf.guards_in_ctx(ctx))
             # while-loop tests guard their bodies
             for cx in ctx:
                 if cx[0] == "loop":
